@@ -177,12 +177,17 @@ func c02Body(sc c02Scn, res *string) func(x *sched.Exec) {
 		var addReturned []c02Done
 		clk := 0 // harness clock (one tick per recorded event; the scheduler's step counter does not move between two harness statements)
 		tick := func() int { clk++; return clk }
+		// when each manual collection was called and when it returned (harness clock), in the order of *into
+		collTimes := map[*[][]c02Point][][2]int{}
+		var addCalled []c02Done
 		collect := func(rd *ManualReader, into *[][]c02Point, wantTemp metricdata.Temporality) {
 			var rm metricdata.ResourceMetrics
+			t0 := tick()
 			if err := rd.Collect(ctx, &rm); err != nil {
 				failed = true
 				return
 			}
+			collTimes[into] = append(collTimes[into], [2]int{t0, tick()})
 			pts, mono, temp := c02Read(&rm)
 			if len(pts) > 0 {
 				if temp != wantTemp {
@@ -200,6 +205,7 @@ func c02Body(sc c02Scn, res *string) func(x *sched.Exec) {
 			sched.Go(func() {
 				defer wg.Done()
 				for _, op := range l {
+					addCalled = append(addCalled, c02Done{op.v, op.a, tick()})
 					add(op.v, op.a)
 					addReturned = append(addReturned, c02Done{op.v, op.a, tick()})
 				}
@@ -349,6 +355,51 @@ func c02Body(sc c02Scn, res *string) func(x *sched.Exec) {
 				}
 			}
 		}
+		// every collection on its own, against the clock: what a collection reports (cumulative: its
+		// value; delta: everything reported up to and including it) holds every measurement whose Add
+		// had returned before the collection was called and none whose Add was called after it returned
+		has := func(total, v int64) bool {
+			for v > 1 {
+				total, v = total/3, v/3
+			}
+			return total%3 == 1
+		}
+		timed := func(reader string, colls [][]c02Point, times [][2]int, delta bool) {
+			if len(times) != len(colls) {
+				return
+			}
+			vals := make([]map[string]int64, len(colls))
+			for i, pts := range colls {
+				vals[i] = map[string]int64{}
+				for _, p := range pts {
+					vals[i][p.attr] = int64(p.val) * sign
+				}
+			}
+			for i := range colls {
+				for _, d := range addReturned {
+					if d.step >= times[i][0] {
+						continue
+					}
+					// cumulative: the value itself holds it. delta: this collection or one that started
+					// before this one returned (two collections of one reader may overlap, and the one
+					// that took the value may return last)
+					found := has(vals[i][d.a], d.v)
+					for j := 0; delta && !found && j < len(colls); j++ {
+						found = times[j][0] < times[i][1] && has(vals[j][d.a], d.v)
+					}
+					if !found {
+						x.Fail("C02|collection-misses-a-finished-measurement|"+reader, "%s collection %d (called at tick %d, returned at %d) does not hold the measurement %d for %s whose Add had returned at tick %d, nor does a collection that started before it returned (collections %v, called/returned %v)", reader, i, times[i][0], times[i][1], d.v, d.a, d.step, colls, times)
+					}
+				}
+				for _, d := range addCalled {
+					if d.step > times[i][1] && has(vals[i][d.a], d.v) {
+						x.Fail("C02|collection-holds-a-later-measurement|"+reader, "%s collection %d (returned at tick %d) holds the measurement %d for %s whose Add was only called at tick %d (collections %v)", reader, i, times[i][1], d.v, d.a, d.step, colls)
+					}
+				}
+			}
+		}
+		timed("delta-manual", deltas, collTimes[&deltas], true)
+		timed("cumulative-manual", cums, collTimes[&cums], false)
 		// cumulative: last value equals the total, sequence monotone for monotonic inputs
 		last := map[string]int64{}
 		for i, pts := range cums {
